@@ -166,7 +166,12 @@ func (e *scaleEnv) callHelper(call *ast.CallExpr) ([]lin, bool) {
 		return nil, false
 	}
 	sub := &scaleEnv{c: e.c, fd: cfd, info: cfd.Pkg.TypesInfo, amtExp: map[*types.Var]lin{}, valForm: map[*types.Var]lin{}, scale: map[*types.Var]lin{}, amtVal: map[*types.Var]lin{}, depth: e.depth + 1}
-	sub.buf = &obBuf{m: map[string]*bufOb{}} // the helper's own obligations are judged where it is evaluated on its own
+	// the helper's obligations count for the caller: what it compares or adds are the caller's quantities
+	if e.buf == nil {
+		e.buf = &obBuf{m: map[string]*bufOb{}}
+	}
+	sub.buf = e.buf
+	defer func() { e.nOb += sub.nOb }()
 	bind := func(pv *types.Var, arg ast.Expr) bool {
 		if pv == nil || arg == nil {
 			return true
@@ -694,6 +699,10 @@ func (e *scaleEnv) stmts(list []ast.Stmt) bool {
 					if ok {
 						e.checkResult(cl.Pos(), ef)
 					}
+				} else if call, isCall := r.(*ast.CallExpr); isCall && !isAmountType(e.info.TypeOf(r)) {
+					// the verdict is a helper's (return compareValues(a.value, a2.value)): its comparisons
+					// are judged with the scales of what is handed in
+					e.callHelper(call)
 				} else if isAmountType(e.info.TypeOf(r)) {
 					if ef, ok := e.expOfAmount(r); ok {
 						// returning an existing amount unchanged: its exponent must be the documented one, or
@@ -741,6 +750,36 @@ func (e *scaleEnv) stmts(list []ast.Stmt) bool {
 			e.restore(save)
 			if hasDefault && (all || e.paths < 200) {
 				return all
+			}
+			// no clause applied: for `case a.exp < b.exp: … case b.exp < a.exp: …` without default
+			// what remains is a.exp == b.exp
+			if !hasDefault && st.Tag == nil {
+				type pair struct{ x, y *types.Var }
+				var lt []pair
+				for _, cc := range st.Body.List {
+					for _, cnd := range cc.(*ast.CaseClause).List {
+						be, ok := ast.Unparen(cnd).(*ast.BinaryExpr)
+						if !ok || (be.Op != token.LSS && be.Op != token.GTR) {
+							continue
+						}
+						xv, xf := e.fieldOfAmountVar(be.X)
+						yv, yf := e.fieldOfAmountVar(be.Y)
+						if xv == nil || yv == nil || xf != "exp" || yf != "exp" {
+							continue
+						}
+						if be.Op == token.GTR {
+							xv, yv = yv, xv
+						}
+						lt = append(lt, pair{xv, yv})
+					}
+				}
+				for _, p1 := range lt {
+					for _, p2 := range lt {
+						if p1.x == p2.y && p1.y == p2.x {
+							e.amtExp[p1.y] = e.expOfVar(p1.x)
+						}
+					}
+				}
 			}
 		case *ast.ForStmt:
 			e.stmts(st.Body.List)
